@@ -33,6 +33,9 @@ def run_variants(pid, jobs=8):
                     return dict(id=m["id"], status="skipped", why="patch does not apply to the current tree")
             elif not s.edit(m["file"], m["find"], m["repl"], m.get("count", 1)):
                 return dict(id=m["id"], status="skipped", why="anchor text not found exactly once in the current tree")
+            for extra in m.get("also", []):
+                if not s.edit(extra["file"], extra["find"], extra["repl"]):
+                    return dict(id=m["id"], status="skipped", why="secondary anchor not found")
             rc, out = s.check(pid)
             if "fact extraction failed" in out or "could not compile" in out:
                 return dict(id=m["id"], status="nocompile")
